@@ -21,8 +21,8 @@ func c04Prelude() []Stmt {
 	}
 }
 
-func T(n int64) Expr           { return call("t", il(n)) }
-func Bf(n int64, v bool) Expr  { return call("b", il(n), bl(v)) }
+func T(n int64) Expr            { return call("t", il(n)) }
+func Bf(n int64, v bool) Expr   { return call("b", il(n), bl(v)) }
 func Sf(n int64, v string) Expr { return call("s", il(n), sl(v)) }
 
 type exprTemplate struct {
